@@ -75,7 +75,7 @@ def env_for(home):
                 HOME=home, NO_COLOR="1", RUST_BACKTRACE="0")
 
 
-def run_rink(home, args, strace_log=None, inject=None, timeout=60):
+def run_rink(home, args, strace_log=None, inject=None, timeout=60, stdin_text=None):
     cmd = [RINK] + args
     if strace_log:
         pre = ["strace", "-f", "-y", "-o", strace_log, "-e", "trace=openat,open,creat,write,pwrite64,writev,ftruncate,truncate,fsync,"
@@ -84,7 +84,9 @@ def run_rink(home, args, strace_log=None, inject=None, timeout=60):
             pre += ["-e", inject]
         cmd = pre + cmd
     try:
-        p = subprocess.run(cmd, env=env_for(home), stdout=subprocess.PIPE, stderr=subprocess.PIPE, timeout=timeout, cwd=home)
+        p = subprocess.run(cmd, env=env_for(home), stdout=subprocess.PIPE, stderr=subprocess.PIPE, timeout=timeout, cwd=home,
+                           input=None if stdin_text is None else stdin_text.encode(),
+                           stdin=subprocess.DEVNULL if stdin_text is None else None)
         return p.returncode, p.stdout.decode(errors="replace"), p.stderr.decode(errors="replace")
     except subprocess.TimeoutExpired:
         return "timeout", "", ""
@@ -189,7 +191,11 @@ def scenario(job):
         slog = os.path.join(home, "strace.log") if with_strace else None
         args = ["--fetch-currency"] if entry == "fetch" else ["USD -> EUR", "1 + 1"]
         n_before = len(server.requests_seen())
-        rc, out, err = run_rink(home, args, strace_log=slog)
+        if limits:
+            # the sandboxed mode is the interactive one: no arguments, queries on (piped) standard input
+            rc, out, err = run_rink(home, [], strace_log=slog, timeout=30, stdin_text="USD -> EUR\n1 + 1\n")
+        else:
+            rc, out, err = run_rink(home, args, strace_log=slog)
         after = read_cache(cache)
         body_served = new if bname != "garbage" else (b"this is not json {{{" * 10)
         res["observed"] = {"rc": rc, "cache_before": None if before is None else len(before),
